@@ -1,7 +1,9 @@
 (* C16 -- Decode options only add information; unknown-item counts are exact. *)
 From Coq Require Import NArith ZArith List Bool.
 From Coq Require Import Sorting.Sorted Sorting.Permutation.
-From FitV Require Import Model.Values Model.Route Model.Decode Proofs.DecodeLemmas.
+From FitV Require Import Model.Values Model.IO Model.Header Model.Route Model.Components Model.Decode Proofs.DecodeLemmas
+  Spec.FitSyntax Spec.RouteSpec Proofs.StreamDenoteDefs Proofs.StreamDenoteLift Proofs.StreamDenoteMain Proofs.StreamDenoteCor
+  Proofs.StreamDenoteOpts Proofs.StreamDenoteFail Proofs.StreamDenoteFrame Proofs.StreamDenoteFailDecode.
 Import ListNotations.
 Local Open Scope N_scope.
 
@@ -25,9 +27,157 @@ Proof. exact unknown_fields_perm. Qed.
 Theorem C16_bump1_count : forall k k' l, count_of1 k' (bump1 k l) = if k' =? k then count_of1 k' l + 1 else count_of1 k' l.
 Proof. exact bump1_count. Qed.
 
-(* PARTIAL: opts_invisible (the decoded messages, the error and the bytes consumed do not depend on the options,
-   for every stream and reader) and the exactness of the counts against the record list are covered by the
-   harness: every stream is decoded under all 8 option sets and compared, and the counts are compared with the
-   extracted reference semantics. Proved here: the counters are write-only bookkeeping at finalization. *)
+(* ---------------------------------------------------------------------------------------------------------
+   opts_invisible, for EVERY input (arbitrary bytes, any reader oracle, success or failure): the two runs are
+   related by a simulation "equal except ds_unkf / ds_unkm" (Proofs/StreamDenoteOpts.v: psim, sound for both the
+   abstract and the buffered interpreter).  [project] keeps error, header, File without the two lists, the reader
+   after the call (rd_pos = bytes consumed), accumulators and quirk tags. *)
+Theorem C16_opts_invisible : forall o md g rd fuel,
+  project (decode o md g rd fuel) = project (decode no_opts md g rd fuel).
+Proof. exact opts_invisible. Qed.
+Print Assumptions C16_opts_invisible.
+Theorem C16_opts_invisible_any_two : forall o o' md g rd fuel,
+  project (decode o md g rd fuel) = project (decode o' md g rd fuel).
+Proof. exact opts_invisible2. Qed.
+Theorem C16_opts_invisible_DecodeChained : forall o g rd fuel,
+  project_chain (entry_DecodeChained o g rd fuel) = project_chain (entry_DecodeChained no_opts g rd fuel).
+Proof. exact opts_invisible_DecodeChained. Qed.
+Print Assumptions C16_opts_invisible_DecodeChained.
+(* the record loop alone, on the abstract interpreter, from any pair of related states *)
+Theorem C16_records_opts_invisible : forall o fuel x s s', eqv s s' ->
+  rsim (run_a (decode_file_data o fuel) x s) (run_a (decode_file_data no_opts fuel) x s').
+Proof. exact records_opts_invisible_abstract. Qed.
+
+(* unknown_counts_exact (success case): on every stream in the domain of C02_decode_denote the two lists the File
+   reports are the reference counts (records of each unknown message; occurrences of each unlisted field of known
+   messages), sorted *)
+Theorem C16_unknown_counts_exact : forall o h g rs ss1 f2 g1 tl t,
+  starts_with_file_id rs = true -> stream_wf rs = true -> no_time_quirk rs = true -> denote rs = Some ss1 ->
+  start_file h g (hd dummy_msg (ss_msgs ss1)) = Some (f2, g1) ->
+  let L := List.length (ser_records rs) in
+  exists s1,
+    run_a (data_prog o false (S L)) (mk_ast (ser_records rs ++ tl) t 0 L) (init_dstate (new_file h) g) =
+      ROk tt (mk_ast tl t L L) s1 /\
+    (o_unkm o = true -> f_unkm (finalize_unknown o s1) = Some (sorted_unkm ss1)) /\
+    (o_unkf o = true -> f_unkf (finalize_unknown o s1) = Some (sorted_unkf ss1)).
+Proof. exact unknown_counts_exact. Qed.
+Print Assumptions C16_unknown_counts_exact.
+(* (the entry-point form, through any reader: the two conjuncts on f_unkm / f_unkf of C02_decode_denote) *)
+
+(* the options do change the counters: the simulation relation is not vacuous *)
+Example C16_counters_differ_example :
+  match run_a (decode_file_data (mk_dopts false true true) 3)
+              (mk_ast [0x40; 0; 0; 0x34; 0xFF; 1; 7; 1; 2; 0; 9] TEOF 0 11) (init_dstate (new_file zero_header) g_init),
+        run_a (decode_file_data no_opts 3)
+              (mk_ast [0x40; 0; 0; 0x34; 0xFF; 1; 7; 1; 2; 0; 9] TEOF 0 11) (init_dstate (new_file zero_header) g_init) with
+  | ROk _ x s, ROk _ x' s' => ds_unkm s = [(0xFF34, 1)] /\ ds_unkm s' = [] /\ a_n x = 11%nat /\ a_n x' = 11%nat
+  | _, _ => False
+  end.
+Proof. vm_compute. repeat split; reflexivity. Qed.
+
+(* ---------------------------------------------------------------------------------------------------------
+   counts_on_failure.  [post Q r]: Q holds of the decoder state returned with the outcome r, whether success, decoder
+   error or I/O error (that state is what decode hands to finalize_unknown).  le1 / le2: count for count.
+   (1) ANY input, ANY state, one record: the counters never decrease and grow by at most the contribution of the
+   definition in the slot the header byte addresses: one bump of its message for unkm, bumps of a PREFIX of its
+   unlisted field numbers for unkf; nothing for definition records *)
+Theorem C16_record_counts : forall o x s,
+  post (fun s' =>
+          grows s s' /\
+          (cs (ds_unkm s) (ds_unkf s) s' \/
+           exists dm, hdr_slot (hd 0 (a_rest x)) s = Some dm /\
+             (ds_unkm s' = ds_unkm s \/ ds_unkm s' = bump1 (dm_gmn dm) (ds_unkm s)) /\
+             exists ks, prefix ks (unlisted dm) /\
+                        ds_unkf s' = fold_left (fun acc k => bump2 (dm_gmn dm, k) acc) ks (ds_unkf s)))
+       (run_a (parse_record o) x s).
+Proof. exact record_counts. Qed.
+Print Assumptions C16_record_counts.
+(* (2) ANY input: over the whole record loop the counters only grow *)
+Theorem C16_loop_grows : forall o fuel x s, post (grows s) (run_a (decode_file_data o fuel) x s).
+Proof. exact loop_grows. Qed.
+(* (3) a well-formed prefix rs followed by ARBITRARY bytes: however the run ends, the counters are at least the
+   reference counts of the completed records *)
+Theorem C16_counts_on_failure_lower : forall rs o pre fb gb ft s0 ss0 ss1 junk t n lim fuel,
+  Inv o pre fb gb ft s0 ss0 ->
+  stream_wf rs = true -> no_time_quirk_from ss0 rs = true -> denote_from ss0 rs = Some ss1 ->
+  (n + List.length (ser_records rs) <= lim)%nat ->
+  post (fun sf => (o_unkm o = true -> le1 (ss_unkm ss1) (ds_unkm sf)) /\
+                  (o_unkf o = true -> le2 (ss_unkf ss1) (ds_unkf sf)))
+       (run_a (decode_file_data o fuel) (mk_ast (ser_records rs ++ junk) t n lim) s0).
+Proof. exact counts_on_failure_lower. Qed.
+(* (4) a well-formed stream cut inside record r (strict prefix cut of its bytes): the counters lie between the reference
+   counts of the completed records and those including the record in flight ... *)
+Theorem C16_counts_on_failure_truncated : forall rs r cut rem o pre fb gb ft s0 ss0 ss1 ss2 t n lim fuel,
+  Inv o pre fb gb ft s0 ss0 ->
+  stream_wf rs = true -> no_time_quirk_from ss0 rs = true -> denote_from ss0 rs = Some ss1 ->
+  rec_wf r = true -> record_time_ok ss1 r = true -> denote_record ss1 r = Some ss2 ->
+  ser_record r = cut ++ rem -> rem <> [] ->
+  (n + List.length (ser_records rs) <= lim)%nat ->
+  post (fun sf =>
+          ((o_unkm o = true -> le1 (ss_unkm ss1) (ds_unkm sf)) /\ (o_unkf o = true -> le2 (ss_unkf ss1) (ds_unkf sf))) /\
+          ((o_unkm o = true -> le1 (ds_unkm sf) (ss_unkm ss2)) /\ (o_unkf o = true -> le2 (ds_unkf sf) (ss_unkf ss2))))
+       (run_a (decode_file_data o fuel) (mk_ast (ser_records rs ++ cut) t n lim) s0).
+Proof. exact counts_on_failure_truncated. Qed.
+Print Assumptions C16_counts_on_failure_truncated.
+(* ... the run then ends with an I/O error (or with success if the data size says the data ends there), never with a
+   decoder error or a panic ... *)
+Theorem C16_truncated_outcome : forall rs r cut rem o pre fb gb ft s0 ss0 ss1 ss2 t n lim fuel,
+  Inv o pre fb gb ft s0 ss0 ->
+  stream_wf rs = true -> no_time_quirk_from ss0 rs = true -> denote_from ss0 rs = Some ss1 ->
+  rec_wf r = true -> record_time_ok ss1 r = true -> denote_record ss1 r = Some ss2 ->
+  ser_record r = cut ++ rem -> rem <> [] ->
+  (n + List.length (ser_records rs) <= lim)%nat -> (List.length rs < fuel)%nat ->
+  match run_a (decode_file_data o fuel) (mk_ast (ser_records rs ++ cut) t n lim) s0 with
+  | ROk _ _ _ => (n + List.length (ser_records rs) = lim)%nat
+  | RIOErr _ _ _ => (n + List.length (ser_records rs) < lim)%nat
+  | _ => False
+  end.
+Proof. exact truncated_outcome. Qed.
+(* ... and the same for the lists the File reports (finalize_unknown on the returned state; sorting keeps every count
+   because keys are distinct) *)
+Theorem C16_counts_on_failure_file : forall rs r cut rem o pre fb gb ft s0 ss0 ss1 ss2 t n lim fuel,
+  Inv o pre fb gb ft s0 ss0 -> distinct_keys s0 ->
+  stream_wf rs = true -> no_time_quirk_from ss0 rs = true -> denote_from ss0 rs = Some ss1 ->
+  rec_wf r = true -> record_time_ok ss1 r = true -> denote_record ss1 r = Some ss2 ->
+  ser_record r = cut ++ rem -> rem <> [] ->
+  (n + List.length (ser_records rs) <= lim)%nat ->
+  post (fun sf =>
+          (o_unkm o = true ->
+           exists lm, f_unkm (finalize_unknown o sf) = Some lm /\
+                      forall k, cnt1 k (ss_unkm ss1) <= cnt1 k lm <= cnt1 k (ss_unkm ss2)) /\
+          (o_unkf o = true ->
+           exists lf, f_unkf (finalize_unknown o sf) = Some lf /\
+                      forall m k, cnt2 m k (ss_unkf ss1) <= cnt2 m k lf <= cnt2 m k (ss_unkf ss2)))
+       (run_a (decode_file_data o fuel) (mk_ast (ser_records rs ++ cut) t n lim) s0).
+Proof. exact counts_on_failure_file. Qed.
+Print Assumptions C16_counts_on_failure_file.
+
+(* (5) the entry point: Decode on a file cut inside record r (the header promises more data than the reader delivers),
+   through any reader oracle: an I/O error (unexpected EOF, or the reader's fault), and the lists in the partial File
+   returned with it lie, count for count, between the reference counts of the completed records and those including
+   the record in flight *)
+Theorem C16_Decode_counts_on_failure :
+  forall o g rd fuel h l be fds (devflag : bool) (devs : list (N * N * N)) pay dev rest r cut rem ss1 ss2 f2 g1,
+  let rs := RDef l be Gen.Consts.c_MesgNumFileId fds devflag devs :: RData l pay dev :: rest in
+  header_wf h ->
+  rd_data rd = hdr_bytes h ++ ser_records rs ++ cut ->
+  (List.length (ser_records rs ++ cut) < N.to_nat (h_dsize h))%nat ->
+  stream_wf rs = true -> no_time_quirk rs = true -> denote rs = Some ss1 ->
+  start_file h g (hd dummy_msg (ss_msgs ss1)) = Some (f2, g1) ->
+  rec_wf r = true -> record_time_ok ss1 r = true -> denote_record ss1 r = Some ss2 ->
+  ser_record r = cut ++ rem -> rem <> [] ->
+  (List.length (rd_data rd) + List.length (rd_sched rd) < fuel)%nat ->
+  exists e file' rd' g' q,
+    entry_Decode o g rd fuel = TDone (mk_dres (Some (EIO e)) h (Some file') rd' g' q) /\
+    (o_unkm o = true ->
+     exists lm, f_unkm file' = Some lm /\ forall k, cnt1 k (ss_unkm ss1) <= cnt1 k lm <= cnt1 k (ss_unkm ss2)) /\
+    (o_unkf o = true ->
+     exists lf, f_unkf file' = Some lf /\ forall m k, cnt2 m k (ss_unkf ss1) <= cnt2 m k lf <= cnt2 m k (ss_unkf ss2)).
+Proof. exact Decode_counts_on_failure. Qed.
+Print Assumptions C16_Decode_counts_on_failure.
+
+(* PARTIAL: for ill-formed tails (not a truncation of a well-formed stream) the bound is (1)-(3): at least the counts of
+   the completed records, at most one record's contribution per parsed record; the entry-point form is written out for
+   truncation only. *)
 Example C16_example : sort_unkm [(300, 2); (22, 1)] = [(22, 1); (300, 2)].
 Proof. reflexivity. Qed.
